@@ -229,9 +229,11 @@ def _match_segment(items, seg):
     kind, rest, nth = m.group(1), m.group(2).strip(), m.group(3)
     want = [t.text for t in lex(rest) if t.kind not in TRIVIA]
     cands = []
+    exact = []
     for it in items:
         if kind == "impl" and it.kind == "impl":
             key = _impl_key(it.header)
+            if key == want: exact.append(it)
             if key == want or _strip_generics([k for k in key if not k.startswith("'")]) == want or _strip_generics(key) == want:
                 cands.append(it)
         elif kind == "macro" and it.kind == "macro_rules" and [it.name] == want:
@@ -240,6 +242,8 @@ def _match_segment(items, seg):
             cands.append(it)
         elif kind == it.kind and kind != "impl" and [it.name] == want:
             cands.append(it)
+    if len(exact) == 1 and nth is None:
+        return exact[0]
     if nth is not None:
         n = int(nth)
         if n >= len(cands): raise LostAnchor("selector segment %r: index %d out of %d" % (seg, n, len(cands)))
